@@ -273,7 +273,7 @@ pub fn c07_case() -> BoxedStrategy<Case> {
         proptest::collection::vec(call, 1..=4),
         any::<bool>(),
         any::<u8>(),
-        proptest::collection::vec(gen::entropy(), 1..=3),
+        proptest::collection::vec(gen::entropy(), 0..=3),
         any::<u8>(),
         any::<u8>(),
     )
@@ -307,9 +307,23 @@ pub fn assemble(
                     gen::PktPlan::Ipfix { hdr: [7, 7, 7], sets: vec![gen::SetPlan::Data(sel, recs.clone(), 0)] }
                 }]],
             };
-            let dpk = gen::build(&dplan, &opts).calls.remove(0).packets.remove(0);
             let idx = (sel as usize * pool.ids.len()) >> 8;
             let id = pool.ids[idx];
+            // no record entropy: the data set for X is nothing but its 4-byte header (it
+            // still references a template the parser does not hold)
+            let header_only = recs.is_empty();
+            let dpk = if header_only {
+                let mut w = W::default();
+                if is_v9 {
+                    enc_v9_header(&mut w, 1, &[7, 7, 7, 7]);
+                } else {
+                    enc_ipfix_header(&mut w, 20, &[7, 7, 7]);
+                }
+                enc_set(&mut w, id, &[], 0);
+                w.0
+            } else {
+                gen::build(&dplan, &opts).calls.remove(0).packets.remove(0)
+            };
             let def = if is_v9 { pool.v9[idx][0].clone() } else { pool.ipfix[idx][0].clone() };
             let has_data = dpk.len() > if is_v9 { 20 } else { 16 };
             if has_data {
@@ -332,8 +346,11 @@ pub fn assemble(
             if has_data {
                 out.push(Call { parser: 1, packets: vec![tp.0.clone()] });
                 out.push(Call { parser: 0, packets: vec![dpk.clone()] });
-                out.push(Call { parser: 0, packets: vec![tp.0] });
-                out.push(Call { parser: 0, packets: vec![dpk] });
+                if !header_only {
+                    // (a data set without records has no conformant reading once X is known)
+                    out.push(Call { parser: 0, packets: vec![tp.0] });
+                    out.push(Call { parser: 0, packets: vec![dpk] });
+                }
             }
             Case { allowed: vec![crate::engine::DEFAULT_ALLOWED.to_vec(); 2], calls: out, params: Default::default() }
         }
